@@ -147,6 +147,21 @@ def reference(family, prob):
                 m = GroupLasso(groups=groups, alpha=ps["alpha"], weights=np.asarray(ps["weights"], dtype=float), fit_intercept=fi, tol=1e-14, max_iter=500,
                                max_epochs=100000).fit(X, y)
                 return np.append(m.coef_, m.intercept_) if fi else m.coef_
+            if family == "sqrt":
+                # scaled-Lasso alternation (Sun & Zhang): the square-root Lasso solution with residual r != 0 is the Lasso solution
+                # with strength alpha * ||r|| / sqrt(n); alternate until the residual norm is stationary (jointly convex problem)
+                from sklearn.linear_model import Lasso
+                w = np.zeros(p)
+                sig = np.linalg.norm(y) / np.sqrt(n)
+                for _ in range(2000):
+                    if sig < 1e-9:
+                        return None
+                    w = Lasso(alpha=ps["alpha"] * sig, fit_intercept=False, tol=1e-15, max_iter=500000).fit(X, y).coef_
+                    new = np.linalg.norm(y - X @ w) / np.sqrt(n)
+                    if abs(new - sig) <= 1e-15 * max(1.0, sig):
+                        return w
+                    sig = new
+                return None
             if family == "quantile":
                 from scipy.optimize import linprog
                 q = ds["quantile_level"]
@@ -214,6 +229,7 @@ def exec_group(params):
     if prob is None:
         return out, sols
     ref = reference(family, prob)
+    exec_group.last_ref = ref is not None
     pts = dict(sols)
     if ref is not None and np.all(np.isfinite(ref)):
         pts["reference"] = np.asarray(ref, dtype=float)
@@ -268,6 +284,8 @@ def run(task, ctx):
         n += 1
         ctx.count("problems")
         ctx.count("converged_routes", len(sols))
+        if getattr(exec_group, "last_ref", False):
+            ctx.count("problems_with_independent_reference")
         supports = {tuple(np.flatnonzero(np.asarray(w).ravel() != 0)) for w in sols.values()}
         ctx.obs([w for w in sols.values()], nontrivial=any(len(s) for s in supports), n=max(1, len(sols)))
         for kind, route, got, exp in v:
